@@ -296,6 +296,19 @@ def first_diff(ta, tb):
     return None
 
 
+def gen_mo_case(rng, seed_mode=None):
+    """MultiObjectiveMultiSurrogateSearcher, seeded via random_seed_generator or random_seed, run well past the
+    initial random phase"""
+    space = rng.choice([[["x", "uniform", [0.0, 1.0]], ["y", "uniform", [0.0, 1.0]]],
+                        [["x", "uniform", [0.0, 1.0]], ["y", "loguniform", [1e-3, 1.0]], ["k", "randint", [1, 9]]],
+                        [["a", "uniform", [-1.0, 1.0]], ["b", "quniform", [0.0, 1.0, 0.1]], ["c", "choice", [["u", "v", "w"]]]]])
+    mo = dict(seed_mode=seed_mode or rng.choice(["generator", "seed"]), random_seed=rng.randrange(2 ** 31),
+              perturb_seed=rng.randrange(2 ** 31), event_seed=rng.randrange(2 ** 31), space=space,
+              n_metrics=rng.choice([2, 2, 3]), n_init=rng.choice([2, 3, 4]), n_cand=rng.choice([30, 100]),
+              n_suggest=rng.choice([12, 16, 20]), mode="min", p_fail=rng.choice([0.0, 0.0, 0.1]))
+    return dict(kind="mo_searcher", config="mo_multisurrogate", mo=mo)
+
+
 def gen_pasha_long(rng, profile=None, thorough=False):
     profile = profile or rng.choice(["bimodal", "crisscross"])
     pl = dict(profile=profile, mseed=rng.randrange(0, 200), rf=3, grace=1, max_t=27, workers=4,
@@ -329,6 +342,9 @@ def run_pasha_long_cases(ctx, cases, repo=None):
 
 
 def variant_sig(case):
+    if case["kind"] == "mo_searcher":
+        return dict(scheduler="MultiObjectiveMultiSurrogateSearcher", variant="seeded via " + case["mo"]["seed_mode"],
+                    searcher="mo_multisurrogate")
     if case["kind"] == "pasha_long":
         return dict(scheduler="hyperband", variant="pasha", searcher="random", check="pasha_long",
                     profile=case["pl"]["profile"])
@@ -389,6 +405,13 @@ def judge(ctx, case, ra, rb, hashseeds, facts=None, funcmap=None):
         ctx.violation("property", "same arguments, seed and history, different outcome: " + what, case=rcase,
                       signature=dict(sig, defect="twin_difference", first_event=str(ev)))
     # statistics
+    if case["kind"] == "mo_searcher":
+        tr = ra.get("trace") or []
+        ctx.count(("mo", case), nontrivial=len(tr) > case["mo"]["n_init"] + 3 and not ra.get("error"))
+        ctx.h("variant", "mo_multisurrogate/%s" % case["mo"]["seed_mode"])
+        if ra.get("error"):
+            ctx.h("errors", ra["error"].split(":")[0])
+        return
     if case["kind"] == "pasha_long":
         tr = ra.get("trace") or []
         if (hashseeds[1] == 1) or differs:
@@ -950,6 +973,11 @@ def run(ctx, replay=None):
                  space=SPACES[1])
         gp_cases.append(c)
     sim_cases = [gen_sim_case(rng) for _ in range(n_sim * (4 if "sim_experiment" in boost else 1))]
+    # multi-objective model-based searcher, both seeding routes
+    mo_cases = [gen_mo_case(rng, "generator"), gen_mo_case(rng, "seed")]
+    for _ in range(ctx.n(2, 20) + (6 if "mo_multisurrogate" in boost else 0)):
+        mo_cases.append(gen_mo_case(rng))
+    sim_cases = sim_cases + mo_cases
     ctx.sample(dict(kind="twin scheduler case", case={k: v for k, v in cases[-1].items() if k != "other_kinds"}))
     ctx.sample(dict(kind="twin GP case", case={k: v for k, v in gp_cases[-1].items() if k != "other_kinds"}))
     ctx.sample(dict(kind="twin simulated experiment", case=sim_cases[0]))
